@@ -674,14 +674,29 @@ class IdCheck:
         if st.orelse or not isinstance(st.target, ast.Name) or not st.body or not isinstance(st.body[0], ast.If):
             return None
         iff = st.body[0]
-        if iff.orelse or len(iff.body) != 1 or not isinstance(iff.body[0], ast.Return) or not (
-                isinstance(iff.body[0].value, ast.Constant) and iff.body[0].value.value is True):
+        if iff.orelse or len(iff.body) != 1 or not isinstance(iff.body[0], ast.Return) or iff.body[0].value is None:
             return None
         x = self.ev(st.iter, env, func)
         if not (isinstance(x, Coll) and x.known):
             return None
         el = TaskV('elem', x) if x.view == 'task' else KeyV(x.view, TaskV('elem', x))
         env2 = dict(env, **{st.target.id: el})
+        rv = iff.body[0].value
+        if not (isinstance(rv, ast.Constant) and rv.value is True):
+            # `return t.id` / `return t`: the hit itself is handed back and its TRUTH VALUE is what the callers test
+            r = self.ev(rv, env2, func)
+            if r is el and isinstance(el, TaskV):
+                pass                                   # a task object is always true (Task defines no __bool__/__len__: C01.own)
+            elif isinstance(r, KeyV) and (r is el or r.task is el) and r.view == 'taskid':
+                name = 'V[the returned id is true]'
+                self.atoms[name] = ('V', rv)
+                inner = self._search_loop_true(st, iff, x, el, env2, func)
+                return ('and', [inner, T.F_atom(name)]) if inner is not None else None
+            else:
+                return None
+        return self._search_loop_true(st, iff, x, el, env2, func)
+
+    def _search_loop_true(self, st, iff, x, el, env2, func):
         m = match("$k in $s", iff.test)
         if m is None:
             return None
@@ -796,6 +811,19 @@ def check_intersection(ctx, o, f):
     for n, a in E_atoms:
         if a[1].src in ('incoming', 'given') and a[1].filters <= new.filters:
             axioms.append(T.F_or(T.F_not(T.F_atom(n)), T.F_and(T.F_not(D), T.F_not(I))))
+    V_atoms = [(n, a) for n, a in ic.atoms.items() if a[0] == 'V' and n in T.atoms_of(R2)]
+    if V_atoms:
+        vnode = V_atoms[0][1][1]
+        use = _result_use(ctx, f)
+        if use == 'is-none':
+            R2 = _assume_true(R2, {n for n, _ in V_atoms})          # callers ask `is not None`: a falsy id still counts
+        elif use == 'truth' and T.implication(T.F_and(T.F_or(D, I), *axioms), [_assume_true(R2, {n for n, _ in V_atoms})]) is None:
+            o.refute(f, vnode, vnode, f"{f.name} hands back the colliding id itself (`return {src(vnode)}`) and its callers "
+                     f"test that value for truth: a collision on a falsy id (0, '', 0.0, False) counts as 'no collision' and the attach is accepted")
+            return
+        else:
+            o.undecided(f, vnode, vnode, f"{f.name} returns the colliding id; cannot tell how every caller tests it")
+            return
     cex = T.implication(T.F_and(T.F_or(D, I), *axioms), [R2])
     if cex is None:
         o.site(f, f.node, "distinct incoming tasks with equal ids are rejected")
@@ -867,6 +895,57 @@ def check_collect_subtree(ctx, o, f):
                                                             "a duplicate id deeper in the subtree is not seen")
     else:
         o.undecided(f, f.node, '_collect_subtree', "subtree collection in an unrecognised form")
+
+
+def _assume_true(f, names):
+    k = f[0]
+    if k == 'atom':
+        return ('const', True) if f[1] in names else f
+    if k == 'not':
+        return ('not', _assume_true(f[1], names))
+    if k in ('and', 'or'):
+        return (k, [_assume_true(x, names) for x in f[1]])
+    return f
+
+
+def _result_use(ctx, f) -> str:
+    """how the callers of the predicate test its result: 'truth' (if r: / if f(..):), 'is-none' (r is not None), 'mixed/unknown'"""
+    from sa.flow import flow_of
+    kinds = set()
+    for g in ctx.prog.all_funcs():
+        if g is f or isinstance(g.node, ast.Lambda):
+            continue
+        for c in facts.calls_named(g, f.name):
+            if not isinstance(c.func, ast.Name):
+                continue
+            names = set()
+            for n in walk_no_nested(g.node):
+                if isinstance(n, ast.Assign) and n.value is c and len(n.targets) == 1 and isinstance(n.targets[0], ast.Name):
+                    names.add(n.targets[0].id)
+            found = False
+            for n in walk_no_nested(g.node):
+                tests = []
+                if isinstance(n, (ast.If, ast.While, ast.IfExp)):
+                    tests = [n.test]
+                elif isinstance(n, ast.Assert):
+                    tests = [n.test]
+                for t in tests:
+                    for a, p in facts.split_conj(t, True) + ([x for v in t.values for x in facts.split_conj(v, True)] if isinstance(t, ast.BoolOp) else []):
+                        core, _ = facts.norm_cond(a, p)
+                        if core is c or (isinstance(core, ast.Name) and core.id in names):
+                            kinds.add('truth')
+                            found = True
+                        m = match("$x is None", core)
+                        if m is not None and (m['x'] is c or (isinstance(m['x'], ast.Name) and m['x'].id in names)):
+                            kinds.add('is-none')
+                            found = True
+            if not found:
+                kinds.add('unknown')
+    if kinds == {'truth'}:
+        return 'truth'
+    if kinds == {'is-none'}:
+        return 'is-none'
+    return 'unknown'
 
 
 def _rename(f, ren):
@@ -1554,3 +1633,21 @@ def listed_once(ctx, o):
                 if len(parts) > 1 and raw:
                     o.refute(f, st, st, f"{f.name} splices its argument `{roles.arg}` into the shared child list as it is (`{src(value)[:60]}`): a task "
                                         f"named twice in the argument ends up twice in the children list and in WBS.tasks")
+                    continue
+                # a summand with one entry PER ELEMENT of the argument (`[by_id[i] for i in ids]`): a repeated element repeats the task -
+                # unless every entry is at the same time taken out of a copy of the list (that removal fails on the repeat)
+                from .c11 import _transfer_perm
+                from sa.flow import flow_of
+                if _transfer_perm(f, value, ex, flow_of(f)) == 'perm':
+                    continue
+                per_elem = [p for p in parts if isinstance(p, (ast.ListComp, ast.GeneratorExp)) and p.generators and
+                            roles.is_arg_list(p.generators[0].iter) and not _dedup_filter(p)]
+                if per_elem:
+                    o.refute(f, st, st, f"{f.name} puts one entry per element of its argument `{roles.arg}` into the shared child list "
+                                        f"(`{src(per_elem[0])[:60]}`): an element named twice puts the same task twice into the children list and "
+                                        f"into WBS.tasks (a later move / remove unlinks only one entry)")
+
+
+def _dedup_filter(comp) -> bool:
+    """the comprehension drops repeats itself (`if x not in seen and not seen.add(x)`)"""
+    return any(isinstance(x, ast.Call) and isinstance(x.func, ast.Attribute) and x.func.attr == 'add' for c in comp.generators[0].ifs for x in ast.walk(c))
